@@ -39,24 +39,61 @@ class Interp:
         self.executed = []
         self.current = None         # (transform idx, prop) being assigned
 
-        def make_method(ev):
+        def make_method(ev, owner=-1):
             def method(self, value):
+                it.last_owner = owner
                 it.called(self, ev, value)
             method.__name__ = ev
+            method._owner = owner
             return method
 
+        # a class is a list of property names (decorated root class), or
+        # {'base': k, 'names': [...] | None, 'override': [...]}: a subclass,
+        # decorated again (names) or not (None), overriding some callbacks
         self.lclasses = []
-        for i, names in enumerate(self.cfg['lclasses']):
-            ns = {EVENT[p]: make_method(EVENT[p]) for p in PROPS}
-            cls = type(f'L{i}', (), ns)
-            cls = d.event_handler(*[EVENT[p] for p in names])(cls)
+        self.lnames = []
+        for i, spec in enumerate(self.cfg['lclasses']):
+            if isinstance(spec, dict):
+                base = self.lclasses[spec['base']]
+                ns = {EVENT[p]: make_method(EVENT[p], i)
+                      for p in spec.get('override', [])}
+                cls = type(f'L{i}', (base,), ns)
+                names = list(self.lnames[spec['base']])
+                if spec.get('names') is not None:
+                    cls = d.event_handler(
+                        *[EVENT[p] for p in spec['names']])(cls)
+                    names += [p for p in spec['names'] if p not in names]
+                if ns:
+                    self.probes['listener_subclass_overrides'] += 1
+            else:
+                names = list(spec)
+                ns = {EVENT[p]: make_method(EVENT[p]) for p in PROPS}
+                cls = type(f'L{i}', (), ns)
+                cls = d.event_handler(*[EVENT[p] for p in names])(cls)
             self.lclasses.append(cls)
+            self.lnames.append(names)
         self.listeners = []
         for i, ci in enumerate(self.cfg['listeners']):
             o = self.lclasses[ci]()
             o._label = f'l{i}'
             kernel.label(o, o._label)
             self.listeners.append(o)
+        # two hidden listeners of every event, registered only while a
+        # 'chain' / 'storm' operation runs
+        Hidden = d.event_handler(*EVENT.values())(type(
+            'Hidden', (), {EVENT[p]: make_method(EVENT[p]) for p in PROPS}))
+        self.lclasses.append(Hidden)
+        self.lnames.append(list(PROPS))
+        self.hidden = len(self.listeners)
+        for k in range(2):
+            o = Hidden()
+            o._label = f'l{self.hidden + k}'
+            kernel.label(o, o._label)
+            self.listeners.append(o)
+        self.chain_left = 0
+        self.storm = False
+        self.uniq = 0
+        self.last_owner = None
         self.transforms, self.dims, self.model = [], [], []
         for i, spec in enumerate(self.cfg['transforms']):
             dim = spec['dim']
@@ -99,6 +136,11 @@ class Interp:
     def fail(self, kind, detail):
         raise Violation('C20', kind, detail)
 
+    def names_of(self, li):
+        if li >= self.hidden:
+            return PROPS
+        return self.lnames[self.cfg['listeners'][li]]
+
     def called(self, listener, ev, value):
         li = int(listener._label[1:])
         inside = None
@@ -108,12 +150,30 @@ class Interp:
                 inside = getattr(self.transforms[t], prop)
             except Exception as e:          # pragma: no cover
                 inside = e
+        want_owner = getattr(getattr(type(listener), ev), '_owner', None)
+        if self.last_owner != want_owner:
+            self.fail('wrong_method', f'l{li}.{ev}: the function defined by '
+                      f'class L{self.last_owner} ran, the listener\'s class '
+                      f'resolves {ev} to the one of L{want_owner}')
         self.trace.add('cb', li, ev, repr(value))
         self.calls.append((li, ev, value, inside))
+        if li == self.hidden and self.chain_left > 0 and self.current:
+            # feedback chain: assign again, one level deeper
+            self.chain_left -= 1
+            t, prop = self.current
+            self.uniq += 1
+            v = 2000.25 + self.uniq if (prop == 'rotation'
+                                        and self.dims[t] == 2) else \
+                ['vec', [3000 + self.uniq] + [1] * (self.dims[t] - 1)]
+            self.nested_assign(['assign', t, prop, v])
+            return
+        if li == self.hidden + 1 and self.storm:
+            self.raised += 1
+            raise kernel.Boom('listener raised')
         n = self.ncalls[li]
         self.ncalls[li] += 1
         script = self.sc.get('scripts', {}).get(f'cb:{li}:{n}')
-        if script and len(self.nest) < 4:
+        if script and len(self.nest) < 4 and not self.storm:
             for op in script:
                 if op[0] == 'assign' and op[1] < len(self.transforms):
                     self.probes['assignment_from_inside_a_callback'] += 1
@@ -165,7 +225,7 @@ class Interp:
         if name == 'add':
             _, li, t = op
             self.transforms[t].add_handler(self.listeners[li])
-            if self.cfg['lclasses'][self.cfg['listeners'][li]]:
+            if self.names_of(li):
                 self.reg[t].add(li)
             if sum(1 for r in self.reg if li in r) >= 2:
                 self.probes['shared_listener'] += 1
@@ -175,9 +235,62 @@ class Interp:
             self.reg[t].discard(li)
         elif name == 'assign':
             self.assign(op)
+        elif name == 'chain':
+            # a listener that assigns again from inside its callback, `depth`
+            # levels deep (every level notifies everybody once)
+            _, t, prop, v, depth = op
+            h = self.listeners[self.hidden]
+            self.transforms[t].add_handler(h)
+            self.reg[t].add(self.hidden)
+            self.chain_left = depth
+            try:
+                self.assign(['assign', t, prop, v], budget=400 * depth + 20000)
+            finally:
+                self.chain_left = 0
+                self.transforms[t].remove_handler(h)
+                self.reg[t].discard(self.hidden)
+            self.probes['feedback_chain>64'] += depth > 64
+        elif name == 'storm':
+            # n assignments during each of which a listener raises; the
+            # assignments after the storm are judged as usual
+            _, t, prop, n = op
+            h = self.listeners[self.hidden + 1]
+            self.transforms[t].add_handler(h)
+            self.storm = True
+            try:
+                for k in range(n):
+                    self.uniq += 1
+                    val = 4000.25 + self.uniq if (
+                        prop == 'rotation' and self.dims[t] == 2) else \
+                        self.value(self.dims[t], prop,
+                                   ['vec', [5000 + self.uniq] * self.dims[t]])
+                    self.raised = 0
+                    self.current = (t, prop)
+                    try:
+                        with kernel.budget(20000):
+                            setattr(self.transforms[t], prop, val)
+                    except kernel.Boom:
+                        pass
+                    except SimHang as e:
+                        self.fail('hang', str(e))
+                    finally:
+                        self.current = None
+                    self.model[t][prop] = ('rot2', val) if (
+                        prop == 'rotation' and self.dims[t] == 2) else val
+                    self.last_assigned = t
+                    if self.raised != 1:
+                        self.fail('count', f'assignment {k + 1} of a series '
+                                  f'on t{t}.{prop}: the (raising) listener '
+                                  f'was called {self.raised} times')
+            finally:
+                self.storm = False
+                self.transforms[t].remove_handler(h)
+            self.probes['raising_listener_storm'] += 1
         self.check_reads()
 
-    def assign(self, op):
+    raised = 0
+
+    def assign(self, op, budget=20000):
         _, t, prop, v = op
         dim = self.dims[t]
         val = self.value(dim, prop, v)
@@ -186,7 +299,7 @@ class Interp:
         self.nest = [(t, prop, val)]
         self.current = (t, prop)
         try:
-            with kernel.budget(20000):
+            with kernel.budget(budget):
                 setattr(self.transforms[t], prop, val)
         except Violation:
             raise
@@ -215,7 +328,7 @@ class Interp:
         ev = EVENT[prop]
         want = Counter()
         for li in self.reg[t]:
-            names = self.cfg['lclasses'][self.cfg['listeners'][li]]
+            names = self.names_of(li)
             if prop in names:
                 want[li] += 1
         got = Counter()
@@ -255,7 +368,7 @@ class Interp:
             if k == 0 and prop == 'rotation' and self.dims[t] == 2:
                 self.model[t][prop] = self.model[t][prop]
             for li in self.reg[t]:
-                names = self.cfg['lclasses'][self.cfg['listeners'][li]]
+                names = self.names_of(li)
                 if prop in names:
                     want[(li, EVENT[prop], repr(stored))] += 1
         # the first assignment's model entry (nested ones set theirs)
@@ -328,6 +441,15 @@ def generate(prop, run_seed, tier='quick', tolerate=frozenset()):
     for _ in range(crng.randint(1, 3)):
         lclasses.append([p for p in PROPS if crng.random() < .6] or
                         [crng.choice(PROPS)])
+    if crng.random() < .3:
+        # subclasses of listener classes: decorated again or not, overriding
+        # some of the callbacks
+        for _ in range(crng.randint(1, 2)):
+            lclasses.append({
+                'base': crng.randrange(len(lclasses)),
+                'names': ([p for p in PROPS if crng.random() < .5]
+                          if crng.random() < .4 else None),
+                'override': [p for p in PROPS if crng.random() < .6]})
     listeners = [crng.randrange(len(lclasses))
                  for _ in range(crng.randint(1, 4))]
     cfg = {'policy': crng.choice(kernel.POLICIES), 'transforms': transforms,
@@ -366,6 +488,18 @@ def generate(prop, run_seed, tier='quick', tolerate=frozenset()):
             p = rng.choice(PROPS)
             scripts[f'cb:{li}:{rng.randint(0, 6)}'] = [
                 ['assign', t, p, unique_value(transforms[t]['dim'], p)]]
+    r = crng.random()
+    if r < .04:
+        t = crng.randrange(nt)
+        p = crng.choice(PROPS)
+        k = crng.randint(0, len(ops))
+        ops[k:k] = [['chain', t, p, gen_value(rng, transforms[t]['dim'], p),
+                     crng.choice([3, 20, 63, 64, 65, 70, 100])]]
+    elif r < .08:
+        t = crng.randrange(nt)
+        k = crng.randint(0, len(ops))
+        ops[k:k] = [['storm', t, crng.choice(PROPS),
+                     crng.choice([2, 10, 63, 64, 65, 80, 130])]]
     return {'format': 1, 'engine': 'transform', 'config': cfg, 'ops': ops,
             'scripts': scripts}
 
@@ -406,4 +540,6 @@ PROBES = {'C20': ['rotation_out_of_range', 'negative_rotation',
                   'shared_listener', 'cross_event_silence_checked',
                   'constructed_with_values',
                   'rotation_out_of_range_with_listener',
-                  'assignment_from_inside_a_callback', 'cascade_checked']}
+                  'assignment_from_inside_a_callback', 'cascade_checked',
+                  'listener_subclass_overrides', 'feedback_chain>64',
+                  'raising_listener_storm']}
